@@ -124,6 +124,14 @@ def _make_feedback(owner, fb):
     t = _hint_type(hint)
     if t is not None:
         getter.__annotations__ = {"return": t}
+        if fb.get("strhint"):
+            # the hint as it is stored under `from __future__ import annotations` / when quoted
+            from wpimath.geometry import Rotation2d
+
+            globals().setdefault("Rotation2d", Rotation2d)
+            getter.__annotations__ = {"return": {
+                "int": "int", "float": "float", "bool": "bool", "str": "str", "seq_int": "Sequence[int]", "list_float": "list[float]",
+                "tuple_str": "tuple[str, ...]", "tuple_bool2": "tuple[bool, bool]", "rot": "Rotation2d", "seq_rot": "Sequence[Rotation2d]"}[hint]}
     CTX.fb_values[tag] = [_materialize(v) for v in fb["vals"]]
     if fb.get("key"):
         return magicbot.feedback(key=fb["key"])(getter)
@@ -178,12 +186,32 @@ def build_program(rs):
         for fb in c.get("fbs", []):
             ns[fb["m"]] = _make_feedback(n, fb)
         bases = (object,)
+        if c.get("sm"):
+            # a magicbot StateMachine as component: execute / on_disable log and then defer to the framework
+            def sm_execute(self, _t=f"{n}.execute"):
+                CTX.hit(_t)
+                magicbot.StateMachine.execute(self)
+
+            ns["execute"] = sm_execute
+            if c.get("dis"):
+                def sm_on_disable(self, _t=f"{n}.on_disable"):
+                    CTX.hit(_t)
+                    magicbot.StateMachine.on_disable(self)
+
+                ns["on_disable"] = sm_on_disable
+
+            def first_state(self):
+                pass
+
+            first_state.__name__ = "first_state"
+            ns["first_state"] = magicbot.state(first=True)(first_state)
+            bases = (magicbot.StateMachine,)
         if c.get("base_resets"):
             bns = {a: will_reset_to(d) for a, d in c["base_resets"].items()}
             for a in c["base_resets"]:
                 if (n, a) not in CTX.snap_attrs:
                     CTX.snap_attrs.append((n, a))
-            bases = (type(f"Base_{n}", (object,), bns),)
+            bases = (type(f"Base_{n}", bases, bns),)
         comp_classes[n] = type(f"Comp_{n}", bases, ns)
         order.append(n)
 
@@ -442,23 +470,32 @@ def run_program(case, with_faults=True, with_writes=True):
         prev = "disabled"
         chunks = case.get("chunks") or []
         k = 0
-        for mode, dwell in case["hist"]:
+        fms_now = bool(case.get("fms", False))
+        run.steps[-1]["fms"] = fms_now
+        for seg in case["hist"]:
+            mode, dwell = seg[0], seg[1]
             if not drv.alive():
                 break
-            drv.set_mode(mode)
+            if len(seg) > 2:
+                # the flag changes while the robot thread is idle; the loop's next refreshData() sees the new
+                # mode and the new flag together, so every callback of a step runs under one flag value
+                fms_now = bool(seg[2])
+                drv.set_mode(mode, fms=fms_now)
+            else:
+                drv.set_mode(mode)
             for i in range(dwell):
                 if chunks:
                     for part in chunks[k % len(chunks)]:
                         drv.step_partial(part)
                 k += 1
                 drv.step_to_alarm()
-                record(mode, "first" if (i == 0 and mode != prev) else "iter")
+                record(mode, "first" if (i == 0 and mode != prev) else "iter")["fms"] = fms_now
                 if not drv.alive():
                     break
             prev = mode
         run.last_mode = prev
         drv.stop()
-        record(prev, "shutdown")
+        record(prev, "shutdown")["fms"] = fms_now
         run.exc = drv.exc
         POKES[0] += drv.pokes
         run.fired = list(CTX.fired)
@@ -531,6 +568,8 @@ def decode_fb(code, used):
     fb["vals"] = [fb_value(fb["hint"], v) for v in vals]
     if fb["hint"] in ("seq_int", "list_float", "seq_rot") and vals[0] % 2:
         fb["inplace"] = True
+    if not fb["hint"].startswith("u_") and vals[-1] % 3 == 0:
+        fb["strhint"] = True
     k = fb_key(fb)
     if m in used["m"] or k in used["k"] or k == "":
         return None
@@ -544,6 +583,8 @@ def decode_robot(code):
     comps = []
     for i, (flags, nres, nbres, nplain, fbs_c, rv) in enumerate(comps_c):
         c = {"n": f"c{i}", "setup": bool(flags & 1), "en": bool(flags & 2), "dis": bool(flags & 4)}
+        if rv == 2 and not nplain:
+            c["sm"] = True  # this component is a magicbot StateMachine
         c["resets"] = {f"r{j}": RESET_VALUES[(rv + j) % 5] for j in range(nres)}
         c["base_resets"] = {f"b{j}": RESET_VALUES[(rv + 2 + j) % 5] for j in range(nbres)}
         if nbres and rv == 3:
@@ -633,13 +674,20 @@ def decode_writes(code, rs):
     return out
 
 
-def robot_cases(pid):
+def robot_cases(pid, deep=False):
     def build(code):
         rcode, hcode, fms, fcode, wcode, ccode = code
         rs = decode_robot(rcode)
         case = {"robot": rs, "hist": decode_hist(hcode), "fms": fms}
         if pid == "C07":
             case["faults"] = decode_faults(fcode, rs)
+            if wcode and wcode[0][3] >= 3:
+                # the FMS flag changes at some mode changes (value taken from spare bits of the code)
+                f = fms
+                for k, seg in enumerate(case["hist"][1:]):
+                    if (wcode[k % len(wcode)][0] + k) % 3 == 0:
+                        f = not f
+                        seg.append(f)
         elif pid == "C06" and fms and fcode[0][1] >= 3:
             # with the FMS attached a raising callback must not disturb the lifecycle either
             case["faults"] = decode_faults(fcode, rs)
@@ -653,7 +701,13 @@ def robot_cases(pid):
             case["chunks"] = [c for c in ccode]
         return case
 
-    return st.tuples(_ROBOT_CODE, _HIST_CODE, st.booleans(), _FAULT_CODE, _WRITE_CODE, _CHUNK_CODE).map(build)
+    rc, hc = _ROBOT_CODE, _HIST_CODE
+    if deep:
+        # thorough tier: up to 6 components and 14 mode segments
+        rc = st.tuples(st.lists(_COMP_CODE, max_size=6), _I(0, 6), _I(0, 255), st.booleans(), _I(0, 4),
+                       st.lists(st.booleans(), max_size=2), _I(0, 6), st.lists(_FB_CODE, max_size=3))
+        hc = st.lists(st.tuples(_I(0, 6), _I(1, 8)), min_size=1, max_size=14)
+    return st.tuples(rc, hc, st.booleans(), _FAULT_CODE, _WRITE_CODE, _CHUNK_CODE).map(build)
 
 
 # --------------------------------------------------------------------------
@@ -675,7 +729,7 @@ class RobotLab(Lab):
         simenv.gate()
 
     def strategy(self):
-        return robot_cases(self.pid)
+        return robot_cases(self.pid, deep=self.tier == "thorough")
 
     def extra_evidence(self):
         return {"notifier_wakeups_repeated_by_harness": POKES[0]}
@@ -692,12 +746,12 @@ class RobotLab(Lab):
             cl.add("teleop-in-auto")
         if case.get("fms"):
             cl.add("fms")
-        seq = [m for m, _ in case["hist"]]
+        seq = [h[0] for h in case["hist"]]
         for a, b in zip(seq, seq[1:]):
             if a != "disabled" and b != "disabled":
                 cl.add("direct-enabled-switch")
             cl.add(f"switch:{a}->{b}")
-        if any(d == 1 for _, d in case["hist"][1:]):
+        if any(h[1] == 1 for h in case["hist"][1:]):
             cl.add("one-iteration-segment")
         cl.add("shutdown-in:" + case["hist"][-1][0])
         return cl
@@ -749,7 +803,7 @@ class C05(RobotLab):
                 raise Violation("C05/robot-mode", f"step {i}: /robot/mode is {s.get('nt_mode')!r} while running {s['mode']!r}; case: {case}")
         cl = self.classes_of(case, run)
         rs = case["robot"]
-        nt = (len(rs["comps"]) >= 2 or rs.get("nbase")) and len({m for m, _ in case["hist"]}) >= 2
+        nt = (len(rs["comps"]) >= 2 or rs.get("nbase")) and len({h[0] for h in case["hist"]}) >= 2
         if case.get("chunks"):
             cl.add("chunked-clock")
         return {"nontrivial": bool(nt), "classes": sorted(cl)}
@@ -853,36 +907,58 @@ class C07(RobotLab):
             cl.add("plan-never-fired")
         a = [(e[0], e[1]) for s in clean.steps for e in s["log"]]
         b = [(e[0], e[1]) for s in faulty.steps for e in s["log"]]
-        if case.get("fms"):
+        # which flag was in effect when each fault fired (the flag is constant within a step)
+        flag_at = []
+        for s in faulty.steps:
+            flag_at.extend([bool(s.get("fms"))] * len(s["log"]))
+        loud = None  # first fault that fired while the FMS was not attached
+        pos = {}
+        for j, (tag, _) in enumerate(b):
+            pos.setdefault(tag, []).append(j)
+        seen = {}
+        for site, n, exc in fired:
+            k = seen[site] = seen.get(site, 0)
+            # the n-th call of `site` is the n-th log entry with that tag
+            j = pos[site][n - 1]
+            if not flag_at[j] and loud is None:
+                loud = (site, n, exc, j)
+        if any(len(h) > 2 for h in case["hist"]):
+            cl.add("fms-flag-changes")
+        if loud is None:
+            if fired:
+                cl.add("swallowed")
             if faulty.exc is not None or any(not s["alive"] for s in faulty.steps[:-1]):
                 site = self.first_site(faulty)
                 raise Violation(f"C07/swallow/{site}", f"FMS attached, fault at {[f[:2] for f in fired]}: robot program ended with {faulty.exc!r}; case: {case}")
             if a != b:
                 j = next((k for k in range(min(len(a), len(b))) if a[k] != b[k]), min(len(a), len(b)))
                 site = self.first_site(faulty)
+                if not fired:
+                    raise Violation("C07/harness-nondeterminism", f"plan never fired but the runs differ at entry {j}: {a[j:j+3]} vs {b[j:j+3]}; case: {case}")
                 raise Violation(
                     f"C07/callbacks-lost/{site}",
                     f"FMS attached, faults fired at {[f[:2] for f in fired]}: logs differ at entry {j}: fault-free {a[j:j+4]} vs faulty {b[j:j+4]}; case: {case}",
                 )
         else:
-            if fired:
-                site = self.first_site(faulty)
-                if faulty.exc is None:
-                    raise Violation(f"C07/not-propagated/{site}", f"no FMS, fault fired at {fired[0][:2]} but startCompetition() did not end with an exception; case: {case}")
-                if faulty.exc is not fired[0][2]:
-                    raise Violation(f"C07/wrong-exception/{site}", f"no FMS: startCompetition() ended with {faulty.exc!r}, injected {fired[0][2]!r}; case: {case}")
-                if len(fired) != 1 or b != a[:len(b)] or b[-1][0] != fired[0][0]:
-                    raise Violation(f"C07/continued-after-fault/{site}", f"no FMS: log after the fault is not the fault-free prefix: {b[-5:]} (fired {[f[:2] for f in fired]}); case: {case}")
-            else:
-                if faulty.exc is not None or a != b:
-                    raise Violation("C07/harness-nondeterminism", f"plan never fired but the runs differ; case: {case}")
+            site_tag, n, exc, j = loud
+            cl.add("loud")
+            site = self.site_name(site_tag)
+            if faulty.exc is None:
+                raise Violation(f"C07/not-propagated/{site}", f"no FMS at that moment, fault fired at {(site_tag, n)} but startCompetition() did not end with an exception; case: {case}")
+            if faulty.exc is not exc:
+                raise Violation(f"C07/wrong-exception/{site}", f"no FMS: startCompetition() ended with {faulty.exc!r}, injected {exc!r}; case: {case}")
+            if b != a[:len(b)] or len(b) != j + 1:
+                raise Violation(f"C07/continued-after-fault/{site}", f"no FMS: log after the fault is not the fault-free prefix: {b[-5:]} (fired {[f[:2] for f in fired]}, loud fault at entry {j}); case: {case}")
         return {"nontrivial": bool(fired), "classes": sorted(cl)}
 
     @staticmethod
     def first_site(run):
         if not run.fired:
             return "none"
-        site = run.fired[-1][0] if run.exc is not None else run.fired[0][0]
+        return C07.site_name(run.fired[-1][0] if run.exc is not None else run.fired[0][0])
+
+    @staticmethod
+    def site_name(site):
         if site.startswith("fb:"):
             return "feedback"
         if site.startswith("mode:"):
@@ -1032,7 +1108,7 @@ class C11(RobotLab):
                 cl.add("explicit-key")
         if raised_any:
             cl.add("getter-raised")
-        nt = len(fbs) >= 2 and len({m for m, _ in case["hist"]}) >= 2
+        nt = len(fbs) >= 2 and len({h[0] for h in case["hist"]}) >= 2
         return {"nontrivial": bool(nt), "classes": sorted(cl)}
 
     @staticmethod
